@@ -307,17 +307,22 @@ def rule_into_repr(ctx, rule="INTOREPR"):
         names = [callee_name(t) for _, t in b.calls()]
         d0 = [describe(b, ("call", bb) if si == "term" else b.origin_rvalue(x)) for (bb, si, x) in b.defs.get(0, [])]
         if ty in ("f32", "f64"):
-            ok = any(re.match(r"^repr::Repr::from_str\(ryu::buffer::Buffer::format\(.*, p1\)\)$", d) for d in d0) and not any("format_finite" in n for n in names)
+            ok = len(d0) == 1 and all(re.match(r"^repr::Repr::from_str\(ryu::buffer::Buffer::format\(.*, p1\)\)$", d) for d in d0) and not any("format_finite" in n for n in names) and _no_value_branch(b)
             ctx.ob(rule, key, "idiom:ryu", ok, how="Repr::from_str(ryu::Buffer::new().format(self)) — `format` handles NaN/inf", detail="float into_repr is %s" % d0)
         elif ty in ("u128", "i128"):
-            ok = any(re.match(r"^repr::Repr::from_str\(itoa::Buffer::format\(.*, p1\)\)$", d) for d in d0)
+            ok = len(d0) == 1 and all(re.match(r"^repr::Repr::from_str\(itoa::Buffer::format\(.*, p1\)\)$", d) for d in d0) and _no_value_branch(b)
             ctx.ob(rule, key, "idiom:itoa", ok, how="Repr::from_str(itoa::Buffer::new().format(self))", detail="128-bit into_repr is %s" % d0)
         elif ty.startswith("core::num::nonzero::NonZero<"):
             inner = ty[len("core::num::nonzero::NonZero<"):-1]
-            ok = any(re.match(r"^<%s as repr::num_to_repr::NumToRepr>::into_repr\(core::num::nonzero::NonZero::<T>::get\(p1\)\)$" % re.escape(inner), d) for d in d0)
+            ok = len(d0) == 1 and all(re.match(r"^<%s as repr::num_to_repr::NumToRepr>::into_repr\(core::num::nonzero::NonZero::<T>::get\(p1\)\)$" % re.escape(inner), d) for d in d0) and _no_value_branch(b)
             ctx.ob(rule, key, "idiom:nonzero", ok, how="self.get().into_repr() of the matching primitive", detail="NonZero<%s> into_repr is %s" % (inner, d0))
         else:
             _unrolled_writer(ctx, rule, key, b, ty)
+
+
+def _no_value_branch(b):
+    """a pure delegation has no branch on the value (a special-cased input is a second algorithm)"""
+    return not any(b.term(bb)["k"] == "switch" for bb in range(b.n))
 
 
 def _unrolled_writer(ctx, rule, key, b, ty):
